@@ -194,6 +194,11 @@ impl<C: Iterator<Item = Result<DecodedChar, E>>, E> Parser<C, E> {
 	}
 
 	fn begin_fragment(&mut self) -> usize {
+		#[cfg(json_syntax_verif)]
+		crate::verif::emit(crate::verif::Event::BeginFragment {
+			index: self.code_map.len(),
+			position: self.position,
+		});
 		self.code_map.reserve(self.position)
 	}
 
@@ -202,6 +207,12 @@ impl<C: Iterator<Item = Result<DecodedChar, E>>, E> Parser<C, E> {
 		let entry = self.code_map.get_mut(i).unwrap();
 		entry.span.set_end(self.position);
 		entry.volume = entry_count - i;
+		#[cfg(json_syntax_verif)]
+		crate::verif::emit(crate::verif::Event::EndFragment {
+			index: i,
+			position: self.position,
+			volume: entry_count - i,
+		});
 	}
 
 	fn peek_char(&mut self) -> Result<Option<char>, Error<E>> {
